@@ -194,10 +194,9 @@ func (stack *Stack) TruncateToSize(newsize int) {
 		newsize = 0
 	}
 	if newsize > len(stack.elements) {
-		el := make([]StackElem, newsize)
-		copy(el, stack.elements)
-		stack.elements = el
-		stack.tos = newsize - 1
+		// already below the requested size. Never grow: padding
+		// with nil elements would hand nil to the next Pop, which
+		// asserts the element type.
 		return
 	}
 	for i := newsize; i < len(stack.elements); i++ {
